@@ -6,12 +6,15 @@ the change, the 179-test baseline still passes with the change; then applies it 
 properties, records which report a VIOLATION, and undoes it (git -C /repo checkout -- .).  Writes seeded/<id>/meta.json.
 """
 import json
+import os
 import shutil
 import subprocess
 import sys
 from pathlib import Path
 
 VERIF = Path(__file__).resolve().parent.parent
+# checks run against a seeded change write their evidence here, never into /verif/evidence (which records the unchanged tree only)
+SCRATCH_EVIDENCE = "/var/tmp/verif_seeded_evidence"
 
 
 def sh(cmd, cwd=None, env=None, timeout=3600):
@@ -151,7 +154,7 @@ def one(sid, wt, props, keep=None, suffix=None):
             fresh_bytecode("/repo/src")
             try:
                 for p in props:
-                    rc, out = sh([str(VERIF / "check"), p, "--tier", "quick"], cwd=VERIF)
+                    rc, out = sh([str(VERIF / "check"), p, "--tier", "quick"], cwd=VERIF, env={**os.environ, "VERIF_EVIDENCE_DIR": SCRATCH_EVIDENCE})
                     line = next((l for l in out.splitlines() if l.startswith("VIOLATION")), "")
                     detail = ""
                     if line:
